@@ -571,3 +571,14 @@ V("c03-silent-kahn-helper", "C03", "silent", UT, KAHN_BODY_OLD, "    return _kah
 V("c14-memoised-kahn-worker", "C14", "fire", UT, "from functools import reduce\n", "from functools import reduce, lru_cache\n",
   more=[(UT, KAHN_BODY_OLD, "    pattern = np.asarray(A) != 0\n    return _kahn(pattern.tobytes(), len(pattern))\n\n\n@lru_cache(maxsize=512)\ndef _kahn(pattern, p):\n    A = np.frombuffer(pattern, dtype=bool).reshape(p, p).astype(int)\n")],
   rule="M4", what="memoised worker returns one shared ordering list per zero pattern")
+
+# ------------------------------------------------------------------------------- round-2 inspired (C02, C06, C10)
+V("c02-shift-inplace-on-callable-result", "C02", "fire", AN, "                    noise = self.noise_distributions[i](n) + shift_interventions[i](n)\n", "                    noise = self.noise_distributions[i](n)\n                    noise += shift_interventions[i](n)\n", rule="OWN.writes", what="`+=` writes into the array the user's noise callable returned")
+V("c02-shift-after-branch", "C02", "fire", AN, "                X[:, i] = assignment + noise\n", "                X[:, i] = assignment + noise\n            if i in shift_interventions and i in do_interventions:\n                X[:, i] += shift_interventions[i](n)\n", rule="CASES", what="a shift is also applied to do-intervened variables")
+V("c06-regress-fullset-fastpath", "C06", "fire", ND, "            cov_xs = self.covariance[:, Xs][Xs, :]  #", "            cov_xs = self.covariance if len(Xs) == self.p else self.covariance[:, Xs][Xs, :]  #", rule="FORMULA.coefs", what="full regressor set in non-ascending order uses the unpermuted covariance")
+V("c10-rule1-isdisjoint", "C10", "fire", UT, "    if len(pa(i, A)) > 0 and not pa(i, A) <= adj(j, A):", "    if len(pa(i, A)) > 0 and pa(i, A).isdisjoint(adj(j, A)):", rule="RULES.rule_1", what="rule 1 fires only when *no* parent is adjacent")
+V("c10-rule2-children-both", "C10", "fire", UT, "    return len(ch(i, A) & pa(j, A)) > 0", "    return len(ch(i, A) & ch(j, A)) > 0", rule="RULES.rule_2", what="rule 2 tests a common child", accept_inconclusive=True)
+V("c10-silent-rule1-difference", "C10", "silent", UT, "    if len(pa(i, A)) > 0 and not pa(i, A) <= adj(j, A):", "    if len(pa(i, A) - adj(j, A)) > 0:", what="rule 1 as non-empty difference")
+V("c10-silent-rule2-disjoint", "C10", "silent", UT, "    return len(ch(i, A) & pa(j, A)) > 0", "    return not ch(i, A).isdisjoint(pa(j, A))", what="rule 2 via isdisjoint")
+V("c10-guard-via-edge-list", "C10", "fire", UT, "    for i in I:\n        if len(neighbors(i, P)) > 0:\n            msg = \"Invalid PDAG: has undirected edges around %d for I=%s\"\n            raise ValueError(msg % (i, I))\n",
+  "    for (i, _) in undirected_edges(P):\n        if i in I:\n            msg = \"Invalid PDAG: has undirected edges around %d for I=%s\"\n            raise ValueError(msg % (i, I))\n", rule="GUARD.undirected-at-target", what="only the larger endpoint of each undirected edge is compared with the targets")
